@@ -413,6 +413,13 @@ def run_scenario(sc, tape_mode="log", script=None, keep_raw=False, provider=None
     from ixai.imputer.base import BaseImputer
     from ixai.storage.base import BaseStorage
     imp_obj = find_part(ex, BaseImputer, "_imputer")
+    if imp_obj is None:
+        # the explainer holds no imputer at all: nothing to instrument (its calls will fail inside the library and be
+        # recorded as calls that raised)
+        class _NoImputer:
+            def impute(self, *a, **k):
+                raise AttributeError("the explainer has no imputer")
+        imp_obj = _NoImputer()
     orig_impute = imp_obj.impute
 
     def impute(*a, **k):
